@@ -670,6 +670,7 @@ func callSSA(i *interpreter, caller *frame, callpos token.Pos, fn *ssa.Function,
 			}
 		} else {
 			i.bigGuard(fn, args)
+			timeGuard(fn)
 		}
 		if red := i.env.redirect(name); red != nil {
 			ps.stubsSeen[name+" => "+red.String()] = true
